@@ -204,10 +204,64 @@ class Session:
         except Exception as e:
             outcome = "raised:" + type(e).__name__
             self.res.probes["elem_step_" + outcome] += 1
+        if outcome == "ok":
+            self.check_element_step(op, el, i)
         self.update_model("elem_step", outcome)
         self.clean = None
         self.T_sym = None
         return outcome
+
+    def check_element_step(self, op, el, i):
+        """'Reflects the most recent step' at element level: the next state an element has after
+        its own step() is the one the same element of a never-used twin computes when that twin is
+        initialised with the very same symbols -- whatever this element computed earlier (e.g. a
+        second step with other parameters and no re-initialisation in between)."""
+        import casadi as cs
+        import numpy as np
+
+        T = getattr(cs, self.kind.upper())
+        cur = {}
+        refs, _ = self.in_net()
+        for r in refs:
+            e2 = self.els[r]
+            d = {}
+            for g in GROUPS:
+                for k, v in (getattr(e2, g) or {}).items():
+                    if not isinstance(v, T):
+                        return
+                    d[k] = v
+            if any(getattr(type(e2), "_" + g) for g in GROUPS) and not d:
+                return  # an uninitialised neighbour: nothing to compare against
+            cur[r] = d
+        U2, net2 = dyn.build(self.uspec, self.build_ops)
+        try:
+            eng2 = make_engine(self.kind)
+            for r in refs:
+                U2.obj(r).init_vars(init_conditions=cur.get(r) or None, engine=eng2)
+            tw = U2.obj(op["el"])
+            tw.step(net=net2, engine=eng2, **op["opts"])
+        except Exception:
+            return
+        if el.next_states is None or tw.next_states is None or el.next_states.keys() != tw.next_states.keys():
+            raise Violation("C19/element-step-not-most-recent", f"op#{i} {op['el']}.step: next states {el.next_states and sorted(el.next_states)} "
+                            f"vs twin {tw.next_states and sorted(tw.next_states)}")
+        exprs = [el.next_states[k] for k in sorted(el.next_states)] + [tw.next_states[k] for k in sorted(tw.next_states)]
+        prim, seen = [], set()
+        for x in exprs:
+            for sy in cs.symvar(x):
+                if sy.__hash__() not in seen:
+                    seen.add(sy.__hash__())
+                    prim.append(sy)
+        G = cs.Function("G", prim, exprs)
+        g = np.random.default_rng(core.H("elemstep", i) % (2**63))
+        out = G(*[g.uniform(5.0, 120.0, size=(sy.numel(), 1)) for sy in prim])
+        out = [np.array(o, dtype=float).tobytes() for o in (out if isinstance(out, (list, tuple)) else [out])]
+        n = len(out) // 2
+        if out[:n] != out[n:]:
+            raise Violation("C19/element-step-not-most-recent",
+                            f"op#{i} {op['el']}.step: the next state differs from the one the same element of a never-used twin, "
+                            "initialised with the same symbols, computes with the same parameters")
+        self.res.probes["element_step_twin_compared"] += 1
 
     def do_build(self, op, i):
         dyn.apply_build_op(self.net, self.U, op["build"])
@@ -264,6 +318,7 @@ class Session:
         if free:
             raise Violation("C19/free-symbols", f"{where}: returned function has free symbols {free}")
         self.check_inputs(F, where)
+        self.check_outputs(F, op, where)
         p["compile_returned"] += 1
         self.res.nontrivial = True
         if op.get("recompile", True):
@@ -308,6 +363,21 @@ class Session:
                         "variable currently held by any element of the network (a leftover of an earlier "
                         "initialisation was turned into an input)",
                     )
+
+    def check_outputs(self, F, op, where):
+        """A returned function carries the next state of every element that has states (counted
+        in scalars, so that no layout is assumed); with more_out there are flow outputs on top."""
+        refs, _ = self.in_net()
+        need = 0
+        for r in refs:
+            el = self.els[r]
+            if type(el)._states and el.next_states is not None:
+                need += sum(int(v.numel()) for v in el.next_states.values() if hasattr(v, "numel"))
+        have = sum(F.numel_out(i) for i in range(F.n_out()))
+        kw = self.compile_kwargs(op, self.T_sym)
+        if (have != need) if not kw.get("more_out") else (have < need):
+            raise Violation("C19/next-states-missing-from-function",
+                            f"{where}: the returned function has {have} output scalars, the elements hold {need} next-state scalars")
 
     def compare_with_twin(self, F, op, where):
         sop = self.clean
